@@ -6,7 +6,9 @@ import (
 	"fmt"
 	"os"
 	"runtime/debug"
+	"runtime/pprof"
 	"strings"
+	"time"
 
 	"pv/core"
 	"pv/props"
@@ -26,6 +28,13 @@ func main() {
 		for _, id := range props.IDs() {
 			fmt.Println(id)
 		}
+	case "debug-exec":
+		prog, err := core.Load(core.RepoDir(), "")
+		if err != nil {
+			fmt.Println(err)
+			os.Exit(1)
+		}
+		props.DebugExec(prog, os.Args[2], os.Args[3])
 	case "explain":
 		if len(os.Args) < 3 {
 			usage()
@@ -45,6 +54,20 @@ func main() {
 		}
 		if tier != "thorough" {
 			tier = "quick"
+		}
+		if pf := os.Getenv("PV_CPUPROFILE"); pf != "" {
+			f, _ := os.Create(pf)
+			pprof.StartCPUProfile(f)
+			go func() {
+				time.Sleep(90 * time.Second)
+				pprof.StopCPUProfile()
+				f.Close()
+				os.Exit(3)
+			}()
+			code := runCheck(id, tier)
+			pprof.StopCPUProfile()
+			f.Close()
+			os.Exit(code)
 		}
 		os.Exit(runCheck(id, tier))
 	default:
